@@ -9,6 +9,7 @@ import (
 	"strings"
 	"time"
 
+	"git.sr.ht/~mariusor/go-xsd-duration"
 	"github.com/valyala/fastjson"
 )
 
@@ -144,6 +145,10 @@ func JSONGetTime(val *fastjson.Value, prop string) time.Time {
 func JSONGetDuration(val *fastjson.Value, prop string) time.Duration {
 	if str := val.Get(prop).GetStringBytes(); len(str) > 0 {
 		// TODO(marius): this needs to be replaced to be compatible with xsd:duration
+		var x time.Duration
+		if err := xsd.Unmarshal(str, &x); err == nil {
+			return x
+		}
 		d, _ := time.ParseDuration(string(str))
 		return d
 	}
